@@ -561,12 +561,18 @@ int normal_fn(int v);
 extern int normal_var;
 static int st_var = 3;
 static const int st_cvar = 4;
+int init_mut = 5;
+double init_ratio = 0.5;
+const int init_const = 6;
+void (__attribute__((noreturn)) *get_handler(int which))(int);
 """
 INL_C = r"""
 #include "inl.h"
 extern inline int il_twice(int v);
 int normal_var = 9;
 int normal_fn(int v) { return si_clamp(v) + st_plain(v) + st_var; }
+static void __attribute__((noreturn)) spin(int c) { for (;;) { (void)c; } }
+void (__attribute__((noreturn)) *get_handler(int which))(int) { (void)which; return spin; }
 """
 INL_EXPECT = {"normal_fn": ("(-4)", "0 + -3 + 3"), "il_twice": ("(21)", "42"), "ei_neg": ("(5)", "-5")}
 
@@ -582,9 +588,11 @@ def linkage_part(ck):
     common.guard(rc == 0, "C04 linkage library does not compile: " + err[:300])
     nm = common.sh(["nm", "--defined-only", "-g", os.path.join(wd, "inl.o")]).stdout.decode()
     defined = {l.split()[-1] for l in nm.splitlines() if l.strip()}
-    common.guard({"normal_fn", "normal_var", "il_twice", "ei_neg"} <= defined and "si_clamp" not in defined, f"C04 linkage oracle unexpected symbol table: {sorted(defined)}")
+    common.guard({"normal_fn", "normal_var", "il_twice", "ei_neg", "init_mut", "init_ratio", "get_handler"} <= defined and "si_clamp" not in defined,
+                 f"C04 linkage oracle unexpected symbol table: {sorted(defined)}")
     rows = [("default", []), ("generate-inline", ["--generate-inline-functions"]), ("generate-inline-merge", ["--generate-inline-functions", "--merge-extern-blocks"]),
-            ("generate-inline-fns-only", ["--generate-inline-functions", "--generate", "functions"]), ("c-naming-inline", ["--generate-inline-functions", "--c-naming"])]
+            ("generate-inline-fns-only", ["--generate-inline-functions", "--generate", "functions"]), ("c-naming-inline", ["--generate-inline-functions", "--c-naming"]),
+            ("prefix-link-name", ["--prefix-link-name", "pfx_"])]
     res = common.run_jobs([{"id": n, "args": [os.path.join(wd, "inl.h"), "--no-layout-tests"] + fl, "inventory": True} for n, fl in rows], wd)
     for n, fl in rows:
         r = res[n]
@@ -594,6 +602,26 @@ def linkage_part(ck):
             ck.violation(f"linkage opt={n} generation-failed", dict(det, why=str(r)[:200]))
             continue
         idx = rust_name_index(r["inventory"])
+        if n == "prefix-link-name":
+            # the object is not rebuilt with prefixed names: the row checks the symbol TEXT of every declaration
+            for sym, ent in sorted(idx.items()):
+                ck.count()
+                ck.nontriv(("linkage", n, sym))
+                if sym != "pfx_" + ent[0]:
+                    ck.violation(f"linkage opt={n} symbol={ent[0]} link-name-override-ignored", dict(det, why=f"`{ent[0]}` is declared against the symbol `{sym}` although the override asks for `pfx_{ent[0]}`"))
+            continue
+        # mutable globals with an initialiser are globals (symbol, mutability), and a function RETURNING a pointer to a noreturn function returns
+        for sym in ("init_mut", "init_ratio"):
+            ck.count()
+            ent = idx.get(sym)
+            if "--generate" in fl:
+                continue
+            if ent is None or "mut" not in ent[1].get("tokens", ""):
+                ck.violation(f"linkage opt={n} symbol={sym} initialised-global-not-a-mutable-static", dict(det, why=f"`{sym}` is a mutable global with external linkage; the bindings have {('`' + ent[1].get('tokens', '')[:80] + '`') if ent else 'no foreign static for it'}"))
+        gh = idx.get("get_handler")
+        ck.count()
+        if gh is not None and re.search(r"->\s*!\s*;?\s*$", gh[1].get("tokens", "").strip()):
+            ck.violation(f"linkage opt={n} symbol=get_handler result-declared-diverging", dict(det, why=f"get_handler returns a pointer to a noreturn function, it does return: `{gh[1].get('tokens', '')[:120]}`"))
         for sym in sorted(idx):
             ck.count()
             ck.nontriv(("linkage", n, sym))
